@@ -262,6 +262,11 @@ type viol struct {
 
 func (v *viol) Error() string { return v.v.Error() }
 
+var (
+	inflightSlot int
+	inflightName string
+)
+
 func TestCheck(t *testing.T) {
 	r := vk.New("C05", "model_checking")
 	bound := 2
@@ -306,8 +311,9 @@ func TestCheck(t *testing.T) {
 	var subs []any
 	for i, sc := range scenarios {
 		serial := serialOutcomes(sc)
+		inflightSlot, inflightName = 0, sc.name
 		cfg := schedx.Config{Name: sc.name, Body: body(sc), Preemptions: bound,
-			Deadline: time.Now().Add(r.Left() / time.Duration(len(scenarios)-i)), OnExec: vk.Beat, MaxSteps: 5000,
+			Deadline: time.Now().Add(r.Left() / time.Duration(len(scenarios)-i)), OnExec: vk.Beat, OnRun: func(p []int) { vk.Inflight(inflightSlot, inflightName, []string{fmt.Sprint(p)}) }, MaxSteps: 5000,
 			Check: func(out string, dl bool, choices []int) error {
 				if dl {
 					return &viol{vk.Violationf("concurrent:deadlock:"+sc.name[:2], "schedule %v deadlocks", choices), choices}
